@@ -541,19 +541,94 @@ theorem lemma_step_invF (waitH : Bool) (s : St) (t : Tok) (h : InvF s) : InvF (s
 theorem lemma_init_invF (prog : List HAct) : InvF (init prog) := by
   simp [InvF, init]
 
-theorem lemma_invF_ok (s : St) (h : InvF s) (hr : s.rpc = .returned) : timeoutOK (obsOf s) = true := by
+/-- well-formedness of the response: only documents of the three writers, and a 408 status line only together
+    with the timeout body -/
+def InvW (s : St) : Prop :=
+  Chunk.other ∉ s.body ∧ (s.status = some Chunk.t408 → Chunk.t408 ∈ s.body)
+
+theorem lemma_write_invW (s : St) (c : Chunk) (hc : c ≠ .other) (h : InvW s) : InvW (s.write c) := by
+  obtain ⟨h1, h2⟩ := h
+  refine ⟨by simp [St.write, h1]; exact fun h => hc h.symm, ?_⟩
+  intro hs
+  cases hst : s.status with
+  | none =>
+    simp [St.write, hst] at hs
+    simp [St.write, hs]
+  | some x =>
+    simp [St.write, hst] at hs
+    subst hs
+    simp [St.write, h2 hst]
+
+theorem lemma_fields_invW (s s' : St) (hb : s'.body = s.body) (hs : s'.status = s.status) (h : InvW s) : InvW s' := by
+  unfold InvW
+  rw [hb, hs]
+  exact h
+
+theorem lemma_stepH_invW (s : St) (h : InvW s) : InvW (stepH s) := by
+  unfold stepH
+  split
+  · exact h
+  · split
+    all_goals (try split)
+    all_goals first
+      | exact h
+      | exact lemma_fields_invW s _ rfl rfl h
+      | exact lemma_write_invW _ .h (by decide) (lemma_fields_invW s _ rfl rfl h)
+
+theorem lemma_finishR_invW (s : St) (h : InvW s) : InvW (finishR s) := by
+  unfold finishR
+  split
+  · split
+    · exact lemma_fields_invW s _ rfl rfl h
+    · exact lemma_write_invW _ .rec500 (by decide) (lemma_fields_invW s _ rfl rfl h)
+  · exact lemma_fields_invW s _ rfl rfl h
+
+theorem lemma_stepR_invW (waitH pd : Bool) (s : St) (h : InvW s) : InvW (stepR waitH pd s) := by
+  unfold stepR
+  split
+  · split
+    · exact lemma_finishR_invW s h
+    · split
+      · exact h
+      · split
+        · split
+          · exact lemma_fields_invW s _ rfl rfl h
+          · exact lemma_fields_invW s _ rfl rfl h
+        · exact lemma_fields_invW s _ rfl rfl h
+  · split
+    · exact h
+    · exact lemma_write_invW _ .t408 (by decide) (lemma_fields_invW s _ rfl rfl h)
+  · split
+    · exact lemma_finishR_invW s h
+    · exact h
+  · exact h
+
+theorem lemma_step_invW (waitH : Bool) (s : St) (t : Tok) (h : InvW s) : InvW (step waitH s t) := by
+  cases t with
+  | h => exact lemma_stepH_invW s h
+  | rd => exact lemma_stepR_invW waitH true s h
+  | rc => exact lemma_stepR_invW waitH false s h
+  | dl => exact lemma_fields_invW s _ rfl rfl h
+  | pc => exact lemma_fields_invW s _ rfl rfl h
+
+theorem lemma_init_invW (prog : List HAct) : InvW (init prog) := by
+  simp [InvW, init]
+theorem lemma_invF_ok (s : St) (h : InvF s) (hw : InvW s) (hr : s.rpc = .returned) : timeoutOK (obsOf s) = true := by
   obtain ⟨h1, _, h3, h4⟩ := h
+  obtain ⟨w1, w2⟩ := hw
+  have hno : s.body.contains Chunk.other = false := by simpa using w1
   obtain ⟨_, hrec⟩ := h1 hr
   rcases h4 with h4 | h4 | h4
   · obtain ⟨_, _, a3, _, _, _, a7⟩ := h4
     have hnot : s.body.contains Chunk.t408 = false := by simpa using a3
     have hcnt : s.body.count Chunk.t408 = 0 := List.count_eq_zero.mpr a3
+    have hst : s.status ≠ some Chunk.t408 := fun hs => a3 (w2 hs)
     simp only [timeoutOK, obsOf, h3, hnot, hcnt, hrec]
     cases hp : s.panicChan.isSome
-    · simp
+    · simp [w1, hst]
     · rcases a7 hr hp with hh | hh
-      · simp [hh]
-      · simp [hh]
+      · simp [hh, w1, hst]
+      · simp [hh, w1]
   · simp [hr] at h4
   · obtain ⟨_, _, _, hb, hs⟩ := h4
     simp [timeoutOK, obsOf, h3, hb, hs, hrec]
@@ -567,6 +642,7 @@ theorem lemma_invF_ok (s : St) (h : InvF s) (hr : s.rpc = .returned) : timeoutOK
 theorem timeout_single_response (waitH : Bool) (prog : List HAct) (sched : List Tok) :
     (run waitH sched (init prog)).rpc = .returned → timeoutOK (obsOf (run waitH sched (init prog))) = true :=
   lemma_invF_ok _ (lemma_t_run_induct waitH InvF (lemma_step_invF waitH) sched _ (lemma_init_invF prog))
+    (lemma_t_run_induct waitH InvW (lemma_step_invW waitH) sched _ (lemma_init_invW prog))
 
 /-- non-vacuity: runs that end `returned` — after a deadline and a late panic; with the response
     started before the deadline; after a parent cancel -/
@@ -801,51 +877,57 @@ theorem last_duration_wins (opts : List Opt) (ms : Nat) (rest : List Opt)
 /-- what a skipped request needs in order to end well -/
 def InvS (s : St) : Prop :=
   s.releasedEarly = false ∧ Chunk.t408 ∉ s.body ∧ (s.started = true → Chunk.h ∈ s.body) ∧
-  (s.started = false → s.body = [] ∧ s.status = none) ∧ s.panicChan = none ∧ s.recovered = none
+  (s.started = false → s.body = [] ∧ s.status = none) ∧ s.panicChan = none ∧ s.recovered = none ∧
+  Chunk.other ∉ s.body ∧ s.status ≠ some Chunk.t408
 
 theorem lemma_runSkipped_ok (drop : Nat) (prog : List HAct) (s : St) (h : InvS s) :
     timeoutOK (obsOf (runSkipped drop prog s)) = true ∧ (runSkipped drop prog s).rpc = .returned ∧
     Chunk.t408 ∉ (runSkipped drop prog s).body := by
   induction prog generalizing drop s with
   | nil =>
-    obtain ⟨h1, h2, _, _, h5, h6⟩ := h
+    obtain ⟨h1, h2, _, _, h5, h6, h7, h8⟩ := h
     have hcnt : s.body.count Chunk.t408 = 0 := List.count_eq_zero.mpr h2
-    cases drop <;> simp [runSkipped, timeoutOK, obsOf, h1, hcnt, h5, h6, h2]
+    cases drop <;> simp [runSkipped, timeoutOK, obsOf, h1, hcnt, h5, h6, h2, h7, h8]
   | cons a r ih =>
     cases drop with
     | succ k => simp only [runSkipped]; exact ih k s h
     | zero =>
-      obtain ⟨h1, h2, h3, h4, h5, h6⟩ := h
+      obtain ⟨h1, h2, h3, h4, h5, h6, h7, h8⟩ := h
       cases a with
       | write =>
         simp only [runSkipped]
-        exact ih 0 _ ⟨by simpa [St.write] using h1, by simp [St.write, h2], fun _ => by simp [St.write],
-          fun hf => by simp [St.write] at hf, by simpa [St.write] using h5, by simpa [St.write] using h6⟩
+        refine ih 0 _ ⟨by simpa [St.write] using h1, by simp [St.write, h2], fun _ => by simp [St.write],
+          fun hf => by simp [St.write] at hf, by simpa [St.write] using h5, by simpa [St.write] using h6,
+          by simp [St.write, h7], ?_⟩
+        cases hst : s.status <;> simp_all [St.write]
       | panic v =>
         simp only [runSkipped]
         have hcnt : s.body.count Chunk.t408 = 0 := List.count_eq_zero.mpr h2
         refine ⟨?_, by simp [St.write], by simp [St.write, h2]⟩
+        have hs8 : (s.status.or (some Chunk.rec500)) ≠ some Chunk.t408 := by
+          cases hst : s.status <;> simp_all
         cases hst : s.started
         · have := h4 hst
           simp [timeoutOK, obsOf, St.write, h1, this.1, this.2]
         · have := h3 hst
-          simp [timeoutOK, obsOf, St.write, h1, h2, hcnt, List.count_append, this]
-      | fireDl => simp only [runSkipped]; exact ih 0 _ ⟨h1, h2, h3, h4, h5, h6⟩
-      | firePc => simp only [runSkipped]; exact ih 0 _ ⟨h1, h2, h3, h4, h5, h6⟩
-      | guard n => simp only [runSkipped]; exact ih _ s ⟨h1, h2, h3, h4, h5, h6⟩
-      | awaitCtx => simp only [runSkipped]; exact ih 0 s ⟨h1, h2, h3, h4, h5, h6⟩
-      | awaitE => simp only [runSkipped]; exact ih 0 s ⟨h1, h2, h3, h4, h5, h6⟩
-      | awaitT => simp only [runSkipped]; exact ih 0 s ⟨h1, h2, h3, h4, h5, h6⟩
-      | signalH => simp only [runSkipped]; exact ih 0 s ⟨h1, h2, h3, h4, h5, h6⟩
-      | awaitRet => simp only [runSkipped]; exact ih 0 s ⟨h1, h2, h3, h4, h5, h6⟩
-      | hold => simp only [runSkipped]; exact ih 0 s ⟨h1, h2, h3, h4, h5, h6⟩
+          simp [timeoutOK, obsOf, St.write, h1, h2, hcnt, List.count_append, this, h7]
+          simpa using hs8
+      | fireDl => simp only [runSkipped]; exact ih 0 _ ⟨h1, h2, h3, h4, h5, h6, h7, h8⟩
+      | firePc => simp only [runSkipped]; exact ih 0 _ ⟨h1, h2, h3, h4, h5, h6, h7, h8⟩
+      | guard n => simp only [runSkipped]; exact ih _ s ⟨h1, h2, h3, h4, h5, h6, h7, h8⟩
+      | awaitCtx => simp only [runSkipped]; exact ih 0 s ⟨h1, h2, h3, h4, h5, h6, h7, h8⟩
+      | awaitE => simp only [runSkipped]; exact ih 0 s ⟨h1, h2, h3, h4, h5, h6, h7, h8⟩
+      | awaitT => simp only [runSkipped]; exact ih 0 s ⟨h1, h2, h3, h4, h5, h6, h7, h8⟩
+      | signalH => simp only [runSkipped]; exact ih 0 s ⟨h1, h2, h3, h4, h5, h6, h7, h8⟩
+      | awaitRet => simp only [runSkipped]; exact ih 0 s ⟨h1, h2, h3, h4, h5, h6, h7, h8⟩
+      | hold => simp only [runSkipped]; exact ih 0 s ⟨h1, h2, h3, h4, h5, h6, h7, h8⟩
 
 /-- **Skipped requests.** A request the options exempt is served straight through: it returns, its response never
     contains a timeout body, and the single-response oracle holds — for every program. -/
 theorem skipped_single_response (prog : List HAct) :
     let s := runSkipped 0 prog (init prog)
     timeoutOK (obsOf s) = true ∧ s.rpc = .returned ∧ Chunk.t408 ∉ s.body :=
-  lemma_runSkipped_ok 0 prog (init prog) ⟨rfl, by simp [init], by simp [init], fun _ => ⟨rfl, rfl⟩, rfl, rfl⟩
+  lemma_runSkipped_ok 0 prog (init prog) ⟨rfl, by simp [init], by simp [init], fun _ => ⟨rfl, rfl⟩, rfl, rfl, by simp [init], by simp [init]⟩
 
 example :
     let opts := [Opt.skipPrefix ["/adm".toList], .duration 5, .skip (some false), .skipPaths ["/t".toList]]
